@@ -50,6 +50,16 @@ def run(ctx, rep):
     rep.guarded("R06-ZIP", lambda: r_zip(sh, rep))
     rep.guarded("R06-OPAQUE", lambda: r_opaque(sh, rep))
     rep.guarded("R06-CASTDIR", lambda: r_castdir(sh, rep))
+    rep.rule("R06-VARIANTKEY", "the key under which a generic function's instantiations are compiled separates every run-time representation: one distinct suffix per UplcType constructor, and association lists (unMapData) apart from plain lists (unListData)", floor=10)
+    rep.guarded("R06-VARIANTKEY", lambda: r_variantkey(sh, rep))
+    rep.rule("R01-HELDTYPES", "AirTree::mut_held_types exposes every type a node carries: specialisation to type arguments and opaque erasure rewrite exactly what it hands out (shared with C01)", floor=20)
+
+    def heldtypes():
+        TREE = "crates/aiken-lang/src/gen_uplc/tree.rs"
+        fj = sh.file(TREE)
+        traversal_check(rep, "R01-HELDTYPES", sh, TREE, "AirTree::mut_held_types", find_method(fj, "AirTree", "mut_held_types"), find_enum(fj, "AirTree"), ["Type"])
+
+    rep.guarded("R01-HELDTYPES", heldtypes)
     rep.rule("R06-SCOPE", "type-variable and value scopes: close_scope assigns back exactly what open_new_scope saved (no merging)", floor=3)
     rep.guarded("R06-SCOPE", lambda: r_scope(sh, rep))
     rep.rule("R06-UPCAST", "every way the code generator lowers a call wraps a non-Data argument passed to a Data parameter in cast_to_data (the checker accepts that implicit upcast everywhere)", floor=4)
@@ -334,3 +344,39 @@ def r_upcast(sh, rep):
         rep.check("cast_to_data(" in src and "is_data()" in src, "R06-UPCAST", "build#Call#argument-list#%d" % i, sh.loc(GENU, c), "this lowering of a call builds its arguments without the is_data()-guarded AirTree::cast_to_data its %d sibling(s) have: a function value with a Data parameter then receives a raw Int / ByteArray / list and the builtin it applies fails with a structural type mismatch" % (len(sites) - 1), sample={"siblings": len(sites)})
     if len(sites) < 4:
         rep.bad("R06-UPCAST", "build#Call#sites", sh.loc(GENU, arms[0]), "only %d argument-list sites found in the Call arm, 4 confirmed by hand (anchor)" % len(sites))
+
+
+# ---------------------------------------------------------------------------------------------------------
+# R06-VARIANTKEY
+# ---------------------------------------------------------------------------------------------------------
+def r_variantkey(sh, rep):
+    """Each instantiation of a generic function is compiled once per key returned by get_generic_variant_name; two
+    instantiations with the same key share one body. The body moves values of the type parameter to and from Data with the
+    conversion of *its* representation, so two representations under one key run the wrong conversion for one of them."""
+    BLD = "crates/aiken-lang/src/gen_uplc/builder.rs"
+    f = find_fn(sh.file(BLD), "get_generic_variant_name")
+    rep.touched(BLD, "get_generic_variant_name")
+    m = next(matches_in(f["body"]), None)
+    if m is None:
+        raise AnchorMissing("match in get_generic_variant_name")
+    rows = []  # (uplc constructor or None, guard source, suffix)
+    for a in m["arms"]:
+        lits = [x["v"] for x in walk(a["body"]) if x.get("k") == "Lit" and x.get("lk") == "str"]
+        guard = sh.nsrc(BLD, a["guard"]) if "guard" in a else ""
+        for alt in pat_alts(a["pat"]):
+            ctor = next((last(x.get("p")) for x in walk(alt) if x.get("k") in ("PTupleStruct", "PPath", "PStruct") and "UplcType::" in (x.get("p") or "")), None)
+            rows.append((ctor, guard, lits[0] if lits and not any(y.get("k") == "Macro" for y in walk(a["body"])) else None, a))
+    ut = find_enum(sh.file("crates/aiken-lang/src/gen_uplc/builder.rs"), "UplcType") if False else None
+    by_suffix = {}
+    for ctor, guard, suf, a in rows:
+        if suf is not None:
+            by_suffix.setdefault(suf, set()).add((ctor, guard))
+    for suf, who in sorted(by_suffix.items()):
+        ctors = {c for c, g in who}
+        ok = len(ctors - {None, "Data"}) <= 1 and not (ctors - {None, "Data"} and ({None, "Data"} & ctors))
+        rep.check(ok, "R06-VARIANTKEY", "suffix#%s" % suf, sh.loc(BLD, f), "representations %s share the variant key `%s`: one compiled body serves instantiations whose values are converted to and from Data differently" % (sorted(str(c) for c in ctors), suf), sample={"rows": sorted("%s if %s" % (c, g) if g else str(c) for c, g in who)})
+    lists = [(g, s_) for c, g, s_, a in rows if c == "List"]
+    mapped = [s_ for g, s_ in lists if "is_map()" in g]
+    plain = [s_ for g, s_ in lists if not g]
+    first_guarded = bool(lists) and "is_map()" in lists[0][0]
+    rep.check(bool(mapped) and bool(plain) and mapped[0] != plain[0] and first_guarded, "R06-VARIANTKEY", "List#association-lists-apart", sh.loc(BLD, f), "a list of pairs is an association list (mapData / unMapData), any other list a plain one (listData / unListData): get_generic_variant_name must give `t.is_map()` its own key before the plain List row (found rows %s) — otherwise a generic function used at List<_> and at Pairs<_, _> runs one conversion for both" % lists, sample={"list_rows": lists})
